@@ -15,8 +15,8 @@ use crate::chess::square::Square;
 use crate::chess::moves::Move;
 use crate::engine::search::move_ordering;
 
-pub const NC: usize = 2; // bound on the number of generated captures
-pub const NQ: usize = 2; // bound on the number of generated quiets
+pub const NC: usize = 4; // bound on the number of generated captures
+pub const NQ: usize = 4; // bound on the number of generated quiets
 
 // ---- ghost stand-ins for the types the body only reads through the callees below ----
 pub struct GhostEntry {
@@ -299,6 +299,255 @@ fn vk_c10_stream_full() {
 fn vk_c10_stream_loud() {
     stream(true);
     assert!(unsafe { GEN_QUIETS_CALLS } == 0);
+}
+
+// ---------------------------------------------------------------------------------------------------------------
+// PER-CALL INDUCTIVE FORM (DESIGN C10): instead of running the stream to exhaustion in one query, ONE call of `next` is
+// verified from an ARBITRARY picker state that satisfies the structural invariant S, for every stage of the machine:
+//   Some(m):  m is a generated move that had NOT been yielded, exactly m becomes yielded, S holds again
+//   None:     every generated move had been yielded, the machine is Done
+// "yielded" is a function of the state (cursor positions + the hash-move rule), so no history is needed.  S holds in the
+// initial state with nothing yielded; each Some-call yields exactly one new move; None only when all are yielded =>
+// by induction the stream is every generated move exactly once, for lists of any order and ANY number of calls.
+// ---------------------------------------------------------------------------------------------------------------
+fn stage_no(s: &GenStage) -> u8 {
+    match s {
+        GenStage::BestMove => 0,
+        GenStage::GenCaptures => 1,
+        GenStage::GoodCaptures => 2,
+        GenStage::GenQuiets => 3,
+        GenStage::Killer1 => 4,
+        GenStage::Killer2 => 5,
+        GenStage::CounterMove => 6,
+        GenStage::BadCaptures => 7,
+        GenStage::ScoreQuiets => 8,
+        GenStage::Quiets => 9,
+        GenStage::Done => 10,
+    }
+}
+fn any_stage() -> GenStage {
+    match kani::any::<u8>() % 11 {
+        0 => GenStage::BestMove,
+        1 => GenStage::GenCaptures,
+        2 => GenStage::GoodCaptures,
+        3 => GenStage::GenQuiets,
+        4 => GenStage::Killer1,
+        5 => GenStage::Killer2,
+        6 => GenStage::CounterMove,
+        7 => GenStage::BadCaptures,
+        8 => GenStage::ScoreQuiets,
+        9 => GenStage::Quiets,
+        _ => GenStage::Done,
+    }
+}
+/// position of x in the picker's list, LIST_CAP if absent
+fn pos(p: &MovePicker, x: Move) -> usize {
+    let mut r = LIST_CAP;
+    let mut j = 0;
+    while j < LIST_CAP {
+        if j < p.moves.n && p.moves.items[j] == x && r == LIST_CAP {
+            r = j;
+        }
+        j += 1;
+    }
+    r
+}
+/// has x been handed out before, according to the state alone?
+fn yielded(p: &MovePicker, x: Move) -> bool {
+    let st = stage_no(&p.stage);
+    if p.previous_best_move == Some(x) && st != 0 {
+        return true;
+    }
+    let j = pos(p, x);
+    if j == LIST_CAP {
+        return false;
+    }
+    let ce = p.captures_end;
+    if j < ce {
+        match st {
+            2 | 7 => j < p.idx,
+            3 | 4 | 5 | 6 => j < p.first_bad_capture.unwrap_or(ce),
+            8 | 9 | 10 => true,
+            _ => false,
+        }
+    } else {
+        match st {
+            5 | 6 | 7 | 8 => j < p.first_quiet,
+            9 => j < p.idx,
+            10 => true,
+            _ => false,
+        }
+    }
+}
+/// structural invariant of the picker state w.r.t. the generated lists (nc captures, nq quiets)
+fn structural(p: &MovePicker, nc: usize, nq: usize) -> bool {
+    let st = stage_no(&p.stage);
+    let n = p.moves.n;
+    let ce = p.captures_end;
+    let loud = p.only_captures;
+    let mut ok = true;
+    if loud {
+        ok = ok && p.previous_best_move.is_none() && (st <= 2 || st == 7 || st == 10);
+    }
+    if st <= 1 {
+        // before generation the cursors still hold their constructor values (GenCaptures does not reset idx)
+        return ok && n == 0 && p.idx == 0 && p.first_bad_capture.is_none();
+    }
+    let quiets_present = !loud && (st >= 4);
+    ok = ok && ce == nc && n == (if quiets_present { nc + nq } else { nc });
+    // the list regions are permutations of the generated lists (same length + every generated move present)
+    unsafe {
+        let mut i = 0;
+        while i < NC {
+            if i < nc {
+                let j = pos(p, CAPS[i].unwrap());
+                ok = ok && j < ce;
+            }
+            i += 1;
+        }
+        if quiets_present {
+            let mut i = 0;
+            while i < NQ {
+                if i < nq {
+                    let j = pos(p, QUIETS[i].unwrap());
+                    ok = ok && ce <= j && j < n;
+                }
+                i += 1;
+            }
+        }
+    }
+    let fbc_ok = match p.first_bad_capture {
+        None => true,
+        Some(b) => b < ce,
+    };
+    ok = ok && fbc_ok;
+    let (idx, fq) = (p.idx, p.first_quiet);
+    ok && match st {
+        2 => idx <= ce && p.first_bad_capture.is_none() && fq == ce,
+        3 | 4 => idx == ce && fq == ce,
+        5 | 6 => idx == ce && ce <= fq && fq <= n,
+        7 => p.first_bad_capture.is_some() && p.first_bad_capture.unwrap() <= idx && idx <= ce && ((loud && fq == ce) || (!loud && ce <= fq && fq <= n)),
+        8 => ce <= fq && fq <= n,
+        9 => ce <= fq && fq <= idx && idx <= n,
+        _ => (loud && fq == ce) || (!loud && ce <= fq && fq <= n),
+    }
+}
+
+fn step(loud: bool) {
+    let (nc, nq) = any_lists();
+    let hash = if loud { None } else { any_move_opt() };
+    if let Some(h) = hash {
+        kani::assume(in_caps(h) || in_quiets(h)); // the property's precondition on the hash move
+    }
+    // an arbitrary picker state
+    let mut p = if loud { MovePicker::new_loud() } else { MovePicker::new(hash) };
+    p.stage = any_stage();
+    p.idx = kani::any();
+    p.captures_end = kani::any();
+    p.first_quiet = kani::any();
+    p.first_bad_capture = if kani::any() { Some(kani::any()) } else { None };
+    p.moves.n = kani::any();
+    kani::assume(p.moves.n <= LIST_CAP);
+    let mut j = 0;
+    while j < LIST_CAP {
+        if j < p.moves.n {
+            p.moves.items[j] = any_move();
+        }
+        p.scores[j] = kani::any();
+        j += 1;
+    }
+    kani::assume(structural(&p, nc, nq));
+    let game = Game { player: geo::any_player(), history: GhostHistory(if kani::any() { Some(GhostEntry { mv: any_move_opt() }) } else { None }) };
+    let hist = GhostHist;
+    let ctx = SearchContext { killer_moves: GhostKillers(any_move_opt(), any_move_opt()), countermove_table: GhostCounter(any_move_opt()), history_table: &hist };
+    // an arbitrary generated move x, to state "exactly the returned move becomes yielded" for all moves at once
+    let x = {
+        let from_caps: bool = kani::any();
+        let i: usize = kani::any();
+        unsafe {
+            if from_caps {
+                kani::assume(i < nc);
+                CAPS[i].unwrap()
+            } else {
+                kani::assume(i < nq && !loud);
+                QUIETS[i].unwrap()
+            }
+        }
+    };
+    let st0 = stage_no(&p.stage);
+    let x_before = yielded(&p, x);
+    unsafe {
+        GEN_CAPTURES_CALLS = 0;
+        GEN_QUIETS_CALLS = 0;
+    }
+    let r = p.next(&game, &ctx, kani::any());
+    kani::cover!(st0 == 6 && r.is_some());
+    kani::cover!(st0 == 7 && r.is_some());
+    kani::cover!(st0 == 9 && r.is_none());
+    assert!(structural(&p, nc, nq));
+    match r {
+        Some(m) => {
+            assert!(in_caps(m) || (!loud && in_quiets(m)));
+            assert!(yielded(&p, x) == (x_before || x == m));
+            // m itself was not yielded before: instantiate the line above with x == m
+            if x == m {
+                assert!(!x_before);
+            }
+        }
+        None => {
+            assert!(stage_no(&p.stage) == 10);
+            assert!(x_before && yielded(&p, x));
+        }
+    }
+    // generators run only in their own stage
+    unsafe {
+        assert!(GEN_CAPTURES_CALLS == (st0 <= 1) as u8);
+        assert!(GEN_QUIETS_CALLS <= 1 && (GEN_QUIETS_CALLS == 0 || (!loud && st0 <= 3)));
+    }
+}
+
+//@ obligation: C10.step.full
+//@ domain: bounded(<= 4 captures + <= 4 quiets per node; unbounded in the number of calls)
+//@ functions: engine/search/move_picker.rs::MovePicker::next, engine/search/move_picker.rs::MovePicker::next_best_move, engine/search/move_picker.rs::MovePicker::new
+//@ timeout: 3000
+//@ mem_gb: 14
+//@ note: inductive step of 'the stream is exactly the generated moves, each once': from ANY picker state satisfying the structural invariant (any stage, any cursor positions, any list order, any scores), with any hash move (in the lists or none), ARBITRARY killers / counter move / previous move: one call of next either hands out a generated move that had not been handed out and marks exactly that move, or returns None with every generated move handed out; the invariant is re-established; unreachable!() and out-of-range indices are unreachable
+//@ assumes: callee contracts of generate_captures / generate_quiets (C01: duplicate-free lists, classes disjoint); ArrayVec modelled as a bounded vector of capacity 8; initial state satisfies the invariant with nothing yielded (C10.step.initial)
+#[kani::proof]
+#[kani::unwind(10)]
+fn vk_c10_step_full() {
+    step(false);
+}
+
+//@ obligation: C10.step.loud
+//@ domain: bounded(<= 4 captures per node; unbounded in the number of calls)
+//@ functions: engine/search/move_picker.rs::MovePicker::next, engine/search/move_picker.rs::MovePicker::new_loud
+//@ timeout: 3000
+//@ mem_gb: 14
+//@ note: the same inductive step for the captures-only variant: exactly the generated capture-class moves, each once; the quiet generator is never called
+#[kani::proof]
+#[kani::unwind(10)]
+fn vk_c10_step_loud() {
+    step(true);
+}
+
+//@ obligation: C10.step.initial
+//@ domain: complete
+//@ functions: engine/search/move_picker.rs::MovePicker::new, engine/search/move_picker.rs::MovePicker::new_loud
+//@ timeout: 900
+//@ mem_gb: 6
+//@ note: base case: a fresh picker (either constructor) satisfies the structural invariant and has yielded nothing
+#[kani::proof]
+#[kani::unwind(10)]
+fn vk_c10_step_initial() {
+    let (nc, nq) = any_lists();
+    let loud: bool = kani::any();
+    let hash = if loud { None } else { any_move_opt() };
+    let p = if loud { MovePicker::new_loud() } else { MovePicker::new(hash) };
+    let x = any_move();
+    kani::cover!(true);
+    assert!(structural(&p, nc, nq));
+    assert!(!yielded(&p, x));
 }
 
 //@ obligation: C10.canary.stream
